@@ -121,11 +121,11 @@ def gen(rng, i, tier):
         return {"src": ["roundtrip", [props, charts]], "beh": {}, "ts": None, "tc": None}
     props, charts = rand_ssc(rng)
     ts = tc = None
-    if rng.random() < 0.25:
+    if rng.random() < 0.35:
         ts = {"props": rng.choice(["blank", "blank", "empty"]), "extra": [["CREDIT", "tmpl"], ["X", "y"]][: rng.randrange(0, 3)], "charts": rng.choice([0, 0, 1]), "extras": rng.random() < 0.5}
-    if rng.random() < 0.2:
+    if rng.random() < 0.3:
         tc = {"radar": rng.choice(["1,2,3", "0"]), "extras": rng.random() < 0.5}
-    return {"src": ["lit", [props, charts]], "beh": beh, "ts": ts, "tc": tc}
+    return {"src": ["lit", [props, charts]], "beh": beh, "ts": ts, "tc": tc, "subclass": rng.choice([0, 0, 0, 1, 2, 3, 4, 7])}
 
 
 def build(c):
@@ -166,6 +166,14 @@ def build(c):
         tc = SMChart.blank(); tc.radarvalues = c["tc"]["radar"]
         if c["tc"].get("extras"):
             tc.extradata = ["chart template extra"]
+    if c.get("subclass"):
+        # templates (and the source) that are instances of a caller's subclasses: an SM simfile is an SM simfile
+        if ts is not None and c["subclass"] & 1:
+            ts.__class__ = type("PackSimfile", (SMSimfile,), {})
+        if tc is not None and c["subclass"] & 2:
+            tc.__class__ = type("PackChart", (SMChart,), {})
+        if c["subclass"] & 4:
+            ssc.__class__ = type("MySSC", (SSCSimfile,), {})
     return ssc, ts, tc
 
 
